@@ -12,8 +12,8 @@ META = {
  'C03': dict(files=['C03', 'C03Step'], rule="positions reached incrementally along playouts with interleaved null moves, compared field by field with the from-scratch spec computation and with the re-parse of their own FEN"),
  'C04': dict(files=['C04', 'Compose:C04_'], rule="positions with terminal ones over-represented (mates, stalemates, small endgames)"),
  'C05': dict(files=['C05', 'Compose:C05_'], rule="MAKE lines along 300-ply playouts and complete move trees; Valid / is_sane / monotone counts checked on every successor"),
- 'C06': dict(files=['C06'], rule="POS (fen, reparse), FENP on the harness's standard FEN writer, BFEN on random builder states"),
- 'C07': dict(files=['C07', 'C07Full'], rule="FENP on grammar-directed, mutated, truncated and random Unicode text; BLD on random builder states with 2..64 men; BPARSE"),
+ 'C06': dict(files=['C06', 'C06Std'], rule="POS (fen, reparse), FENP on the harness's standard FEN writer, BFEN on random builder states"),
+ 'C07': dict(files=['C07', 'C07Full', 'C07Bounds', 'C07BoundsBmi'], rule="FENP on grammar-directed, mutated, truncated and random Unicode text; BLD on random builder states with 2..64 men; BPARSE"),
  'C08': dict(files=['C08'], rule="POS on transposition-rich streams; get_hash compared with the from-scratch hashOf of the position"),
  'C09': dict(files=['C09', 'C09Deps'], partial="the statistical clause (collisions no more frequent than chance among millions of explored positions) is measured by the COLL line, not proved: with 793 keys in GF(2)^64 collisions exist", rule="VAR: every single-component variant of sampled positions; COLL: millions of distinct positions hashed"),
  'C10': dict(files=['C10', 'C10NoPanic', 'C10Full'], rule="GAME programs: random/adversarial action sequences incl. illegal moves, offers by both colours, premature accepts, actions after the end"),
